@@ -33,6 +33,7 @@ type Solver struct {
 	Errors    int64
 	TimeoutMs int
 	Name      string
+	Killed    bool
 	log       *os.File
 }
 
@@ -79,6 +80,7 @@ func (s *Solver) Close() {
 
 func (s *Solver) Restart() {
 	s.Close()
+	s.Killed = false
 	s.start()
 }
 
@@ -126,22 +128,45 @@ func (s *Solver) readSexp() string {
 	return sb.String()
 }
 
-// Check runs (check-sat) and returns the verdict.
+// Check runs (check-sat) and returns the verdict. A watchdog kills a solver that
+// ignores its own timeout; the caller must then Restart and replay its script
+// (Killed is set).
 func (s *Solver) Check() SatResult {
 	t0 := time.Now()
 	s.Send("(check-sat)\n")
 	s.Queries++
+	done := make(chan SatResult, 1)
+	go func() {
+		defer func() {
+			if r := recover(); r != nil {
+				done <- Unknown
+			}
+		}()
+		done <- s.readVerdict()
+	}()
+	limit := time.Duration(s.TimeoutMs)*time.Millisecond + 3*time.Second
+	select {
+	case r := <-done:
+		s.Time += time.Since(t0)
+		return r
+	case <-time.After(limit):
+		s.Killed = true
+		s.cmd.Process.Kill()
+		<-done
+		s.Time += time.Since(t0)
+		return Unknown
+	}
+}
+
+func (s *Solver) readVerdict() SatResult {
 	for {
 		line := s.readLine()
 		switch {
 		case line == "sat":
-			s.Time += time.Since(t0)
 			return Sat
 		case line == "unsat":
-			s.Time += time.Since(t0)
 			return Unsat
 		case line == "unknown" || line == "timeout":
-			s.Time += time.Since(t0)
 			return Unknown
 		case strings.HasPrefix(line, "(error"):
 			s.Errors++
@@ -153,7 +178,6 @@ func (s *Solver) Check() SatResult {
 					break
 				}
 			}
-			s.Time += time.Since(t0)
 			return Unknown
 		case line == "":
 		default:
